@@ -246,6 +246,12 @@ def _fmt_cases(tier):
                 for sep in SEPS:
                     cases.append({"part": "fmt", "shape": list(shape), "kind": "gap", "ext": ext, "sep": sep,
                                   "reader": "table"})
+        # NumPy files saved from a column-major (Fortran-ordered) array: the file records that order
+        if shape in ((2, 3), (3, 2)):
+            for dt in ("float64", "int16"):
+                for rd in ("image", "table", "m-image", "m-charge", "image-v2", "table-v2"):
+                    cases.append({"part": "fmt", "shape": list(shape), "kind": dt, "ext": ".npy", "sep": None,
+                                  "reader": rd, "layout": "fortran"})
         # text images that start with a comment line (what numpy.savetxt(..., header="flat field") writes)
         if shape in ((2, 3), (3, 2)):
             for ext in (".txt", ".data"):
@@ -268,7 +274,7 @@ def _n_fmt(tier):
         per_shape += 5 * (4 + (0 if tier == "quick" else mimg + 1))       # .data
         per_shape += 5 * 2                                                # .csv
     per_shape += len(BIN_DTYPES) * (6 + 4) + 1 + 3
-    return per_shape * len(FMT_SHAPES) + 2 * 5 + 2 * 2 * 5 * 2
+    return per_shape * len(FMT_SHAPES) + 2 * 5 + 2 * 2 * 5 * 2 + 2 * 2 * 6
 
 
 def _run_fmt(case):
@@ -281,7 +287,7 @@ def _run_fmt(case):
     rd = case["reader"]
 
     def bad(code, what):
-        viol.append(({"part": "fmt", "reader": rd, "ext": case["ext"] + ("[ext1]" if case.get("layout") else "")
+        viol.append(({"part": "fmt", "reader": rd, "ext": case["ext"] + (f"[{case['layout']}]" if case.get("layout") else "")
                       + ("[title]" if case.get("title") else ""),
                       "sep": case["sep"], "code": code, "cols": "1col" if shape[1] == 1 else "ncol"},
                      f"{rd} of a {shape} '{case['kind']}' file{case['ext']} (sep={case['sep']}): {what}"))
@@ -308,7 +314,7 @@ def _run_fmt(case):
         else:
             arr = bin_array(case["kind"], shape, seed)
             if case["ext"] == ".npy":
-                np.save(path, arr)
+                np.save(path, np.asfortranarray(arr) if case.get("layout") == "fortran" else arr)
             else:
                 from astropy.io import fits
 
